@@ -3,8 +3,10 @@ expression reader (core Lean only).
 
 `render` mirrors `FortranWriter.binaryoperation_node`, `unaryoperation_node`, `literal_node`,
 `call_node`/`_gen_arguments`, array/structure reference printing of
-`src/psyclone/psyir/backend/fortran.py`.  The flag `fixed` selects between the pinned writer
-(`false`) and the writer with `fixes/C02-writer-parens.patch` applied (`true`).
+`src/psyclone/psyir/backend/fortran.py`.  `WMode` selects the writer: `pinned` (the unfixed tree),
+`narrow` (with `fixes/C02-writer-parens-narrow.patch`, the mode the check and the theorems target)
+and `wide` (the not-applied wider rule, used as the proof vehicle: `narrow` and `wide` agree outside
+the known-finding class `exposed`).
 
 `parse` is a recursive-descent parser written from the Fortran 2008 expression grammar
 R701–R722 (level-1 … level-5 expressions).  Like `Fparser2Reader._parenthesis_handler` it drops
@@ -186,33 +188,78 @@ def childGp (c : Ctx) : Option (BinOp × Bool) :=
   | .bin b right _ => some (b, right)
   | _ => none
 
+inductive WMode | pinned | narrow | wide
+  deriving DecidableEq, Repr, Inhabited
+
+def WMode.fixedBin : WMode → Bool
+  | .pinned => false
+  | _ => true
+
+/-- The sign test per writer.  `lit`: the node is a signed `Literal` (else a `UnaryOperation`).
+* `wide`: `parenSign true`.
+* `pinned`: `unaryoperation_node` of the unfixed tree; `literal_node` never adds parentheses.
+* `narrow`: `_sign_needs_parentheses` of the narrow patch = the wide rule except that the
+  existing output for a `+`/`-` sign in front of `*` `/` and for a signed literal after `*` `/`
+  is kept (`kept_as_is`). -/
+def parenSignM (m : WMode) (lit : Bool) (u : UnOp) (c : Ctx) : Bool :=
+  match m with
+  | .wide => parenSign true u c
+  | .pinned => !lit && parenSign false u c
+  | .narrow =>
+    match c.par with
+    | .none => false
+    | .un _ => true
+    | .bin b right _ =>
+      let kept := u != .not && (b == .mul || b == .div)
+      (right && !(lit && kept)) || (decide (b.prec > u.prec) && !kept) ||
+        (match c.gp with
+         | some (g, pRight) => pRight && !right && b.prec > g.prec && u == .minus
+         | none => false)
+
 /-- `FortranWriter()(e)` as a token list, for a node at position `c`. -/
-def render (fixed : Bool) : Ctx → Expr → List Tok
+def render (m : WMode) : Ctx → Expr → List Tok
   | c, .lit l =>
     match l.sign.unop with
     | none => [.lit l.tok]
-    | some u => wrap (fixed && parenSign fixed u c) (l.sign.toks ++ [.lit l.tok])
+    | some u => wrap (parenSignM m true u c) (l.sign.toks ++ [.lit l.tok])
   | c, .un u e =>
-    wrap (parenSign fixed u c) (.op u.tok :: render fixed ⟨.un u, none⟩ e)
+    wrap (parenSignM m false u c) (.op u.tok :: render m ⟨.un u, none⟩ e)
   | c, .bin b l r =>
-    wrap (parenBin fixed b c)
-      (render fixed ⟨.bin b false (decide (l = r)), childGp c⟩ l ++
-        .op b.tok :: render fixed ⟨.bin b true true, childGp c⟩ r)
+    wrap (parenBin m.fixedBin b c)
+      (render m ⟨.bin b false (decide (l = r)), childGp c⟩ l ++
+        .op b.tok :: render m ⟨.bin b true true, childGp c⟩ r)
   | _, .part n args next =>
     .name n ::
       ((match args with
         | .nil => []
-        | _ => .lp :: render fixed .top args ++ [.rp]) ++
+        | _ => .lp :: render m .top args ++ [.rp]) ++
        (match next with
         | .nil => []
-        | _ => .pct :: render fixed .top next))
-  | _, .call f args => .fn f :: .lp :: render fixed .top args ++ [.rp]
+        | _ => .pct :: render m .top next))
+  | _, .call f args => .fn f :: .lp :: render m .top args ++ [.rp]
   | _, .nil => []
   | _, .cons kw e rest =>
-    (match kw with | some k => [.kw k] | none => []) ++ render fixed .top e ++
+    (match kw with | some k => [.kw k] | none => []) ++ render m .top e ++
       (match rest with
        | .nil => []
-       | _ => .comma :: render fixed .top rest)
+       | _ => .comma :: render m .top rest)
+
+/-- The known-finding class of the narrow writer: somewhere in the tree a sign (unary `+`/`-` or
+signed literal) sits at a position where the narrow patch keeps the pinned output although the
+grammar needs parentheses — i.e. where the narrow and the wide test differ. -/
+def exposed : Ctx → Expr → Bool
+  | c, .lit l =>
+    match l.sign.unop with
+    | none => false
+    | some u => parenSignM .narrow true u c != parenSignM .wide true u c
+  | c, .un u e =>
+    (parenSignM .narrow false u c != parenSignM .wide false u c) || exposed ⟨.un u, none⟩ e
+  | c, .bin b l r =>
+    exposed ⟨.bin b false (decide (l = r)), childGp c⟩ l || exposed ⟨.bin b true true, childGp c⟩ r
+  | _, .part _ args next => exposed .top args || exposed .top next
+  | _, .call _ args => exposed .top args
+  | _, .nil => false
+  | _, .cons _ e rest => exposed .top e || exposed .top rest
 
 /-! ### What the writer refuses, and the sort discipline of the encoding -/
 
